@@ -241,6 +241,27 @@ Theorem c11_untagged_extra_columns_panic : forall fs cols strict,
 Proof. exact untagged_overflow. Qed.
 Print Assumptions c11_untagged_extra_columns_panic.
 
+(* the mapping is per destination TYPE: in a sequence of queries issued by one process each query is filled
+   as if it were alone - by the tags of ITS destination (c11_by_name, c11_by_position apply to it) - whatever
+   was queried before, in particular into a different struct type that happens to have the same name *)
+Theorem c11_mapping_per_type : forall before q after,
+  nth_error (fill_sequence (before ++ q :: after)) (List.length before) = Some (fill_one q) /\
+  nth_error (fill_sequence [q]) 0 = Some (fill_one q).
+Proof.
+  intros before q after. split; [|reflexivity].
+  unfold fill_sequence. rewrite map_app. rewrite nth_error_app2 by (rewrite map_length; lia).
+  rewrite map_length, Nat.sub_diag. reflexivity.
+Qed.
+Print Assumptions c11_mapping_per_type.
+
+(* two struct types of one name, tags swapped: each gets its own columns *)
+Example c11_same_name_types :
+  let t1 := [FLeaf "a" false KInt; FLeaf "b" false KInt] in
+  let t2 := [FLeaf "b" false KInt; FLeaf "a" false KInt] in
+  map fst (fill_sequence [(t1, true, ["a"; "b"], [CInt 1; CInt 2]); (t2, true, ["a"; "b"], [CInt 1; CInt 2])]) =
+  [[Some (LInt 1); Some (LInt 2)]; [Some (LInt 2); Some (LInt 1)]].
+Proof. reflexivity. Qed.
+
 (* ------------------------------------------------------------------ entry points *)
 
 (* on every receiver (conn, prepared statement, transaction session) the strict forms pass strict = true
